@@ -114,11 +114,11 @@ def source_hash():
     return h.hexdigest()
 
 
-def lake_build():
+def lake_build(prop=None):
     t0 = time.time()
-    # every Props module on disk is a target of its own, so that a companion file that DitModel.lean does not import yet
+    # every Props module of this property (Props/<id>*.lean) is a target of its own, so that a companion file that DitModel.lean does not import yet
     # is still compiled (and a broken one fails the build instead of silently emptying the audit)
-    props = sorted('DitModel.Props.' + f[:-5] for f in os.listdir(os.path.join(SRC, 'Props')) if f.endswith('.lean'))
+    props = ['DitModel.Props.' + m for m in (prop_files(prop) if prop else [])]
     r = subprocess.run(['lake', 'build', 'DitModel', 'ditdriver'] + props, cwd=LEAN_DIR, capture_output=True, text=True)
     return r.returncode == 0, (r.stdout + r.stderr)[-6000:], time.time() - t0
 
@@ -158,7 +158,7 @@ def audit_axioms(prop, names):
 def gate(prop, tier='quick'):
     """Returns a dict describing the Lean leg for `prop`."""
     t0 = time.time()
-    ok, log, bt = lake_build()
+    ok, log, bt = lake_build(prop)
     names = theorems_of(prop)
     info = {'build_ok': ok, 'build_s': round(bt, 2), 'theorems': names, 'obligations': len(names),
             'discharged': 0, 'problems': [], 'partial': [n for n in names if n.endswith('_partial')]}
